@@ -1,0 +1,40 @@
+//go:build verif
+
+package reorgdetector
+
+import (
+	"database/sql"
+
+	"github.com/agglayer/aggkit/log"
+	"github.com/agglayer/aggkit/reorgdetector/migrations"
+	aggkittypes "github.com/agglayer/aggkit/types"
+)
+
+// VerifNewWithDB is New on a caller-supplied database handle (opened by the runtime-verification
+// harness through its statement-observing database/sql driver on the same SQLite file, so that
+// individual statements of the detector can be delayed). Only compiled with the `verif` build tag.
+func VerifNewWithDB(client aggkittypes.BaseEthereumClienter, cfg Config, network Network,
+	database *sql.DB) (*ReorgDetector, error) {
+	logger := log.WithFields("reorg-detector", network.String())
+	if err := migrations.RunMigrations(cfg.DBPath); err != nil {
+		return nil, err
+	}
+	if cfg.FinalizedBlock.IsEmpty() {
+		cfg.FinalizedBlock = aggkittypes.FinalizedBlock
+	}
+	finalizedBlockNumber, err := cfg.FinalizedBlock.ToBlockNum()
+	if err != nil {
+		return nil, err
+	}
+	return &ReorgDetector{
+		client:               client,
+		db:                   database,
+		checkReorgInterval:   cfg.GetCheckReorgsInterval(),
+		finalizedBlockType:   cfg.FinalizedBlock,
+		finalizedBlockNumber: finalizedBlockNumber,
+		network:              network,
+		trackedBlocks:        make(map[string]*headersList),
+		subscriptions:        make(map[string]*Subscription),
+		log:                  logger,
+	}, nil
+}
